@@ -40,11 +40,14 @@ func init() {
 		{"watch-overflow(C05 overflow)", func(c *harness.Case) { runC05Overflow(c, false) }},
 		{"async-retry(C09 faults)", runC19Retry},
 		{"watch-overflow+subscribers-joining-leaving", runC19OverflowChurn},
+		{"lock-candidates(C14 concurrent)", runC14Concurrent},
+		{"two-nodes-follower-reads(C18 stress)", func(c *harness.Case) { runC18TwoNodes(c, false) }},
+		{"follower-becomes-leader(C15 fail-over)", func(c *harness.Case) { c.Index = (c.Index / 6) * 6; runC15(c) }},
 	}
 	Registry["C19"] = &Prop{
 		Plan: func(tier string) Plan {
-			return Plan{Level: "exploration", Race: true, NCases: pick(tier, 5, 50) * len(c19Items), Batch: 3, CaseTimeout: 400,
-				Rule: "the worker is built with -race (GORACE halt_on_error=0, log_path) and runs the concurrent workloads of C04 (writers, point and range readers, injected errors), C06 (observers, watchers, compactor), C05 (watchers joining/leaving/overflowing), C07 (compaction against writers), C09 (async retry after injected unknown outcomes) and, once built, C14/C18 (lock candidates, two-node pair) on memkv and Badger with production sequencer timing, each repeated with different seeds. " +
+			return Plan{Level: "exploration", Race: true, NCases: pick(tier, 5, 50) * len(c19Items), Batch: 3, CaseTimeout: 150,
+				Rule: "the worker is built with -race (GORACE halt_on_error=0, log_path) and runs the concurrent workloads of C04 (writers, point and range readers, injected errors), C06 (observers, watchers, compactor), C05 (watchers joining/leaving/overflowing), C07 (compaction against writers), C09 (async retry after injected unknown outcomes) C14 (lock candidates), C15 (a follower serving concurrent reads, then taking over) and C18 (leader/follower pair with the real revision syncer) on memkv and Badger with production sequencer timing, each repeated with different seeds. " +
 					"oracle = number of 'WARNING: DATA RACE' blocks whose access stacks contain a frame in github.com/kubewharf/kubebrain/ (this covers huandu/skiplist reached through memkv and Badger reached through the adapter), deduplicated by the pair of innermost kubebrain functions. " +
 					"non-trivial+distinct = workload kinds x seeds that ran to completion under the detector",
 				Assumptions: []string{"the race detector only sees the executions produced; reports entirely inside the TiKV mock or the harness are listed separately and do not decide the property",
